@@ -55,6 +55,10 @@ def clone_case(draw):
                                                st.integers(0, 30), st.integers(0, 30)), max_size=6)))
 
 
+def _picker(t):
+    return t.id
+
+
 def side_snapshot(w):
     """structure + content of a WBS and its members (objects by identity)"""
     out = dict(attrs={k: v for k, v in w.__dict__.items() if not k.startswith('_')}, roots=[id(t) for t in w.roots], tasks={})
@@ -80,6 +84,10 @@ def check(case, exclude=True):
     src = world.ws[wi]
     src.label = 'plan-A'
     src.revision = 7
+    src.key_function = len            # attribute values of any kind are carried over: callables, tuples, None
+    src.picker = _picker
+    src.nothing = None
+    src.shape = (1, 'a')
     members = [world.ts[k] for k in g.members(wi)]
     for k, t in enumerate(members):
         v = case['custom'][k % 4]
